@@ -27,6 +27,9 @@ def run(rep):
     rep.guard(e10, rep, w)
     rep.guard(e11, rep, w)
     rep.guard(e12, rep, w)
+    rep.guard(e13, rep, w)
+    import c06
+    rep.guard(c06.s12, rep, w, 'C05')   # break / continue leave the loop body's scopes: their locals come off the stack innermost first, or a captured loop variable keeps an open upvalue on a dead slot
     import c11
     rep.guard(c11.i1, rep, w)    # `==` on strings is pointer identity: every string an operator produces has to come out of the intern table
     import c03
@@ -613,3 +616,26 @@ def e12(rep, w):
         r.check(not bad, '%s has no interior-mutable field' % adt.rsplit('::', 1)[-1],
                 '%s is shared by handle and read-only by contract, but holds interior-mutable state (%s): a reader changes it, so what one holder is told depends on what '
                 'other holders (or earlier queries) did' % (adt.rsplit('::', 1)[-1], ', '.join(sorted(set(bad)))))
+
+
+def e13(rep, w):
+    """`==` is decided per kind: every kind of value has an arm of its own in PartialEq for Value (identity for handles, contents for
+    collections, IEEE for numbers). A kind without one falls into the catch-all `false` arm: such a value does not even equal itself, nor does
+    a vector or tuple that holds it."""
+    import c12
+    r = rep.rule('E13', 'every kind of value has a same-kind arm in PartialEq for Value (no value is unequal to itself by omission)', floor=20)
+    ef = w.require_fn('yarel::<value::Value as std::cmp::PartialEq>::eq', 'C05')
+    sw, variants = c12.discr_switches(ef, c12.VAL)
+    if not sw:
+        raise Broken('C05', 'anchor', 'PartialEq for Value: match on the kind not found')
+    first = sw[0]
+    for v in sorted(variants):
+        tb = first[1].get(v, first[2])
+        ok = False
+        if tb is not None:
+            for (bi, cs, oth, _) in sw[1:]:
+                if bi in ef.reachable_blocks(tb) and v in cs:
+                    ok = True
+                    break
+        r.check(ok, 'Value::%s == Value::%s has an arm' % (v, v), 'PartialEq for Value has no arm for two values of kind %s: they fall into the catch-all arm, so such a value is not equal to '
+                'itself (`var m = "abc".len; m == m` is false) and neither is a collection that holds it' % v, ef.loc())
